@@ -153,5 +153,21 @@ CLAIMED['C19'] = {
     'note': 'Rate loop explored for small parameter values (max 1..2, concurrent 1..2, 0.2 s) and <= 8 select rounds, not for the shipped (38, 3, 1.5 s); select contract: an empty result blocked for the timeout; probe sockets/key-exchange groups are stubs.',
 }
 
+CLAIMED['C07'] = {
+    'engines': 'ZX',
+    'technique': 'reduction of the schedule quantifier to two solver-checked lemmas over the real code: a footprint lemma (recording map, symbolic presence pattern of three thread ids) and an inductive worker step on a reused thread (archetype pairs with a symbolic name riding along), plus configuration isolation',
+    'text': 'Footprint: every table access of get_db/thread_exit and of all six in-place editors uses only the calling thread\'s key, other threads\' tables unchanged, for every '
+            'presence pattern. Step: a worker task that follows any archetype on the same thread renders the next target exactly as a fresh run (status, text, JSON) and leaves no '
+            'table behind. Config: a shared policy/configuration is untouched by tasks. Disjoint keys + GIL-atomic dict operations => interleavings commute to sequential histories.',
+    'note': 'Real thread scheduling is NOT executed; the commutation argument is reasoning by reading, stated in DESIGN.md; socket/json/get_ident stubbed; three archetypes.',
+}
+CLAIMED['C08'] = {
+    'engines': 'ZX',
+    'technique': 'symbolic execution of the real main() aggregation loop with symbolic worker results and chosen completion orders, of target_worker_thread under every escape class, and of main()->worker->audit() on a scripted network with one failing target',
+    'text': 'For N <= 3 targets with symbolic statuses/texts and every completion order: one block per target, exit status = highest ranked code, JSON stdout = bracketed join; '
+            'the worker returns a pair for every ordinary exception class; with a healthy and a failing target (eight archetypes, both positions) both yield a block in text mode.',
+    'note': 'ThreadPoolExecutor/as_completed replaced by a stub (each task once, chosen order); known findings: SystemExit escapes the worker (sys.exit in the packet reader) and per-target error text is raw inside the JSON array.',
+}
+
 NOT_APPLICABLE = {
 }
